@@ -27,7 +27,7 @@ from glue.core.component_link import ComponentLink  # noqa: E402
 from glue.core.link_helpers import LinkSame  # noqa: E402
 from glue.core.coordinates import AffineCoordinates  # noqa: E402
 from glue.core.exceptions import IncompatibleAttribute, IncompatibleDataException  # noqa: E402
-from glue.core.subset import RangeSubsetState  # noqa: E402
+from glue.core.subset import RangeSubsetState, ElementSubsetState  # noqa: E402
 from glue.core import fixed_resolution_buffer as FRB  # noqa: E402
 
 
@@ -133,6 +133,8 @@ class Built:
             return RangeSubsetState(fl(e[3]), fl(e[4]), att=self.pix(e[1], e[2]))
         if k == "gt":
             return self.main(e[1], e[2]) > fl(e[3])
+        if k == "elems":
+            return ElementSubsetState(indices=list(e[1]))
         if k == "and":
             return self._make_state(e[1]) & self._make_state(e[2])
         if k == "or":
@@ -149,6 +151,8 @@ class Built:
         if k in ("range", "pr"):
             st.lo = fl(new[3])
             st.hi = fl(new[4])
+        elif k == "elems":
+            st.indices = list(new[1])
         elif k in ("and", "or", "xor"):
             self.edit_state(st.state1, old[1], new[1])
             self.edit_state(st.state2, old[2], new[2])
@@ -188,8 +192,10 @@ def run_request(bw, req, prefix="k"):
     if what[0] == "c":
         try:
             kw["target_cid"] = bw.main(what[1], what[2])
-        except IndexError:
-            return "incompatible"
+        except IndexError:   # a component id that belongs to no dataset
+            from glue.core.component_id import ComponentID
+            kw["target_cid"] = ComponentID("nowhere")
+            bw.keep.append(kw["target_cid"])
     elif what[0] == "px":
         kw["target_cid"] = bw.pix(what[1], what[2])
     else:
@@ -222,6 +228,8 @@ def state_sx(e):
         return [k, e[1], e[2], q_sx(e[3]), q_sx(e[4])]
     if k == "gt":
         return [k, e[1], e[2], q_sx(e[3])]
+    if k == "elems":
+        return [k, list(e[1])]
     return [k] + [state_sx(x) for x in e[1:]]
 
 
@@ -358,6 +366,10 @@ def std_states(cw, rng):
         out.append(["pr", i, ax, q_enc(Fraction(rng.randint(-1, 2), 2)), rng.randint(1, 3)])
         out.append([rng.choice(["and", "or", "xor"]), ["range", i, 0, lo, hi],
                     ["not", ["pr", i, ax, 0, rng.randint(0, 2)]]])
+    # selections that are not tied to a dataset (ElementSubsetState without data): states[5·nds ..]
+    sizes = [int(np.prod(d["shape"])) for d in cw["ds"]]
+    out.append(["elems", sorted(rng.sample(range(min(sizes)), rng.randint(0, min(min(sizes), 3))))])
+    out.append(["elems", sorted(rng.sample(range(max(sizes)), rng.randint(1, min(max(sizes), 4))))])
     return out
 
 
@@ -497,7 +509,10 @@ def rand_what(cw, d, rng, allow_foreign=True):
         return ["c", ds, rng.randrange(len(cw["ds"][ds]["comps"]) + (1 if rng.random() < 0.02 else 0))]
     if r < 0.55:
         return ["px", d, rng.randrange(len(cw["ds"][d]["shape"]))]
-    # selection objects of dataset d are states[5d .. 5d+4]; rarely one of another dataset
+    # selection objects of dataset d are states[5d .. 5d+4]; rarely one of another dataset;
+    # the last two are valid on every dataset they fit in
+    if rng.random() < 0.25:
+        return ["st", 5 * nds + rng.randrange(2)]
     ds = d if (not allow_foreign or rng.random() < 0.93) else rng.randrange(nds)
     sid = 5 * ds + rng.randrange(5)
     e = cw["states"][sid]
@@ -507,6 +522,8 @@ def rand_what(cw, d, rng, allow_foreign=True):
 
 
 def has_pr(e):
+    if e[0] == "elems":
+        return False
     return e[0] == "pr" or any(isinstance(x, list) and x and isinstance(x[0], str) and has_pr(x) for x in e[1:] if isinstance(x, list))
 
 
@@ -654,7 +671,7 @@ def mutate_req(cw, req, rng, cids):
             d2 = rng.choice(twins)
             if what[0] in ("c", "px") and what[1] == d:
                 what = [what[0], d2, what[2]]
-            elif what[0] == "st" and what[1] // 5 == d:
+            elif what[0] == "st" and what[1] // 5 == d and what[1] < 5 * nds:
                 what = ["st", 5 * d2 + what[1] % 5]
             if t == d:
                 t = d2
@@ -669,7 +686,7 @@ def mutate_req(cw, req, rng, cids):
             t = rng.randrange(nds)
         bounds = rand_bounds(cw, t, rng)
         what = rand_what(cw, d, rng)
-    elif r < 0.85 and what[0] == "st" and what[1] % 5 in (0, 1):   # equal content, another object
+    elif r < 0.85 and what[0] == "st" and what[1] < 5 * nds and what[1] % 5 in (0, 1):   # equal content, another object
         what = ["st", what[1] - what[1] % 5 + (1 - what[1] % 5)]
     elif r < 0.88:
         bc = not bc
@@ -678,6 +695,53 @@ def mutate_req(cw, req, rng, cids):
     else:
         return rand_req(cw, rng, rng.choice(cids))
     return ["req", d, bounds, t, what, bc, cid]
+
+
+def probe_histories(cw, rng):
+    """Collision probes: a base request under cache id 0 followed by a request that differs from it in
+    exactly ONE component of the hash tuple (data, one bound, target_data, attribute / selection,
+    broadcast), then the base request again."""
+    nds = len(cw["ds"])
+    d = rng.randrange(nds)
+    t = rng.randrange(nds) if rng.random() < 0.7 else d
+    tshape = cw["ds"][t]["shape"]
+    bounds = [rand_bound(sz, rng, "s" if rng.random() < 0.55 else "r") for sz in tshape]
+    for b in bounds:
+        if b[0] == "r" and b[3] < 1:
+            b[3] = 1
+    what = rand_what(cw, d, rng, allow_foreign=False)
+    base = ["req", d, bounds, t, what, True, 0]
+    variants = []
+    for i, b in enumerate(bounds):                       # one bound
+        if b[0] == "s":
+            variants.append(bounds[:i] + [["s", q_enc(q_of(b[1]) + rng.choice([1, -1, Fraction(1, 2)]))]] + bounds[i + 1:])
+            variants.append(bounds[:i] + [["r", b[1], b[1], 1]] + bounds[i + 1:])
+        else:
+            variants.append(bounds[:i] + [["r", b[1], q_enc(q_of(b[2]) + 1), b[3]]] + bounds[i + 1:])
+            variants.append(bounds[:i] + [["s", b[1]]] + bounds[i + 1:])
+    out = [["req", d, v, t, what, True, 0] for v in variants]
+    for d2 in range(nds):                                # data
+        if d2 != d:
+            w2 = what
+            # pixel component ids / pixel-range selections of another dataset are derivable through
+            # the links (not modelled): they always move with the data
+            if what[0] == "px":
+                w2 = ["px", d2, min(what[2], len(cw["ds"][d2]["shape"]) - 1)]
+            elif what[0] == "c" and what[1] == d and rng.random() < 0.5:
+                w2 = ["c", d2, what[2]]
+            elif what[0] == "st" and what[1] < 5 * nds and has_pr(cw["states"][what[1]]):
+                w2 = ["st", 5 * d2 + what[1] % 5]
+            out.append(["req", d2, bounds, t, w2, True, 0])
+    for t2 in range(nds):                                # target_data
+        if t2 != t and len(cw["ds"][t2]["shape"]) == len(tshape):
+            out.append(["req", d, bounds, t2, what, True, 0])
+    for w2 in (["c", d, 0], ["c", d, 1], ["px", d, 0], ["st", 5 * d], ["st", 5 * d + 1], ["st", 5 * d + 2],
+               ["st", 5 * nds], ["st", 5 * nds + 1]):   # attribute / selection
+        if w2 != what:
+            out.append(["req", d, bounds, t, w2, True, 0])
+    out.append(["req", d, bounds, t, what, False, 0])    # broadcast
+    for v in out:
+        yield [base, v, base] if rng.random() < 0.5 else [base, v]
 
 
 class Seq(_Base):
@@ -702,6 +766,9 @@ class Seq(_Base):
                     req = mutate_req(cw, req, rng, cids)
                     ops.append(req)
                 yield [cw, ops]
+            for _ in range(1 if quick else 2):
+                for ops in probe_histories(cw, rng):
+                    yield [cw, ops]
             # finding strata: in-place edits of selection objects / of component arrays
             for _ in range(1 if quick else 2):
                 yield [cw, self.edit_history(cw, rng, maxlen)]
@@ -711,7 +778,7 @@ class Seq(_Base):
         nds = len(cw["ds"])
         d = rng.randrange(nds)
         t = rng.randrange(nds)
-        sid = 5 * d + rng.choice([0, 3, 4])
+        sid = rng.choice([5 * d, 5 * d + 3, 5 * d + 4, 5 * nds])
         req = ["req", d, rand_bounds(cw, t, rng), t, ["st", sid], True, 0]
         ops = [req]
         for _ in range(rng.randint(1, maxlen - 2)):
@@ -801,6 +868,8 @@ def edited(e, rng):
         return [k, edited(e[1], rng), edited(e[2], rng)]
     if k == "not":
         return [k, edited(e[1], rng)]
+    if k == "elems":
+        return [k, sorted(set(e[1]) ^ {0})]
     return e
 
 
@@ -835,7 +904,7 @@ class Img(_Base):
                 if rng.random() < 0.6:
                     what = ["c", d, rng.randrange(len(cw["ds"][d]["comps"]))]
                 else:
-                    what = ["st", 5 * d + rng.randrange(5)]
+                    what = ["st", rng.choice([5 * d + rng.randrange(5), 5 * nds])]
                 layer = ["L", ref, x, y, d, what]
                 calls = []
                 slices = [["i", rng.randint(0, s - 1)] for s in cw["ds"][ref]["shape"]]
